@@ -22,6 +22,9 @@ class SymBytes(list):
     self.extend(o)
     return self
 
+  def __radd__(self, o):
+    return SymBytes(list(o) + list(self))
+
   def join(self, parts):
     out = SymBytes()
     first = True
